@@ -315,10 +315,14 @@ func TestVerif_C05_Shards(t *testing.T) {
 	}
 	rng := verifkit.Rng(77)
 	perm := rng.Perm(len(scripts))
+	if limit := verifkit.EnvInt("C05_SHARD_SCRIPTS", 30000); len(perm) > limit {
+		perm = perm[:limit] // thorough tier: a seeded sample of the trees (all of them go through query.Simplify in package query)
+	}
+	scriptsUsed := len(perm)
 	comps := c05Compositions()
 	perComp := 0
 	if len(comps) > 0 {
-		perComp = (len(scripts) + len(comps) - 1) / len(comps)
+		perComp = (scriptsUsed + len(comps) - 1) / len(comps)
 	}
 	next := 0
 	for ci, c := range comps {
@@ -333,7 +337,7 @@ func TestVerif_C05_Shards(t *testing.T) {
 				}
 			}
 			// (2) TLC's trees with repository-level atoms at the leaves
-			for k := 0; k < perComp && next < len(scripts); k++ {
+			for k := 0; k < perComp && next < scriptsUsed; k++ {
 				toks := scripts[perm[next]]
 				next++
 				a, b := atoms[rng.Intn(len(atoms))], atoms[rng.Intn(len(atoms))]
